@@ -4,12 +4,12 @@ import dns
 import re
 
 SLICE = "NAMENEW (Name::new, Display, re-creation, new_unchecked), SUFFIX (is_subdomain_of, without, is_link_local)"
-RULE = ("bounded-exhaustive: every string of length <= 5 (6 in thorough) over {a, A, 1, -, _, ., \\, e-acute}; label lengths 0..70 with every kind of first and last character "
+RULE = ("bounded-exhaustive: every string of length <= 5 (6 in thorough) over {a, A, 1, -, _, ., \\, e-acute}; every character U+0000..U+00FF in first / interior / last position; label lengths 0..70 with every kind of first and last character "
         "and names with wire length 250..260; all pairs of names with <= 4 labels over a 2-letter alphabet (plus 'local' in several "
         "letter cases) for the suffix relations. Oracle: an independent python grammar / list-suffix reference. "
         "non-trivial = name accepted or relation true")
 ALPHA = ["a", "A", "1", "-", "_", ".", "\\", "é"]
-LABEL_RE = re.compile(rb"^([A-Za-z0-9]|[A-Za-z0-9_][A-Za-z0-9_-]*[A-Za-z0-9])$")
+LABEL_RE = re.compile(rb"\A([A-Za-z0-9]|[A-Za-z0-9_][A-Za-z0-9_-]*[A-Za-z0-9])\Z")   # \Z, not $: "$" also matches before a final newline
 
 
 def cases(rng, tier):
@@ -28,6 +28,11 @@ def cases(rng, tier):
                     out.append("NAMENEW " + (first + b"m" * (ll - 2) + last + b".local").hex())
                     if ll in (62, 63, 64, 65):
                         out.append("NAMENEW " + (b"x." + first + b"-" * (ll - 2) + last).hex())
+    # every character U+0000..U+00FF in first, interior and last position of an otherwise valid label, alone, and in a second label
+    for cp in range(256):
+        ch = chr(cp).encode()
+        for text in (ch + b"mz", b"a" + ch + b"z", b"am" + ch, ch, b"x." + b"a" + ch + b"z", b"ab" + ch + b"cd.local"):
+            out.append("NAMENEW " + text.hex())
     for total in range(248, 262):
         # name of `total` wire bytes: labels of 63 then a remainder
         labels, left = [], total - 1
